@@ -116,5 +116,12 @@ CLAIMS['C40'] = {
   'note': _TB + 'open/zlib/pickle are stand-ins; that CRC-32 changes under every single-byte alteration of the blob is the standard property of CRC-32 and is assumed. One defect found and fixed (format_version was never compared).',
 }
 
+CLAIMS['C01'] = {
+  'text': 'Proof of per-function exception contracts only ("only BASICError / Break / Exit / Reset leave this function"): the error funnel Implementation._handle_exceptions/_handle_error, '
+          'the value layer swept over every operand type pairing that involves a string (binary operators) and every unary conversion/string function over all four types with symbolic contents, and PEEK on a Memory built with the documented default peek_values=None; '
+          'plus the exception obligations inside the other claimed properties. The whole-program statement (all programs, all inputs, all files) is NOT decided by this technique.',
+  'note': _TB + 'The statement parser, tokeniser, device layers and callbacks without a contract are not covered. Seven internal-error defects were found through these and the other contracts and fixed (PEEK default, TIME$, ENVIRON, RENUM, empty protected file, IMP with a string, HEX$ of values below -65536).',
+}
+
 NOT_APPLICABLE = {
 }
